@@ -137,41 +137,30 @@ Ltac inv_ok H := repeat (match type of H with
   | Unmodelled = Ok _ => discriminate H
   end).
 
+Ltac inv_all := repeat match goal with
+  | H : bind _ _ = Ok _ |- _ => let x := fresh "x" in let Hx := fresh "Hx" in apply bind_ok in H as [x [Hx H]]
+  | H : (if ?b then _ else _) = Ok _ |- _ => destruct b
+  | H : (match ?v with _ => _ end) = Ok _ |- _ => destruct v
+  | H : Diag _ = Ok _ |- _ => discriminate H
+  | H : Internal _ = Ok _ |- _ => discriminate H
+  | H : OutOfFuel = Ok _ |- _ => discriminate H
+  | H : Unmodelled = Ok _ |- _ => discriminate H
+  | H : Ok _ = Ok _ |- _ => inversion H; subst; clear H
+  end.
+
 Lemma fix_stmt_rel ss k s s' : fix_stmt ss k s = Ok s' -> rel_fix s s'.
 Proof.
   unfold fix_stmt. intros H.
+  set (ov := operand_value (s_operand s)) in *. clearbody ov.
+  set (sg := match s_operand s with ODirect _ => false | _ => true end) in *. clearbody sg.
+  set (dg := match s_operand s with OImmediate _ => _ | _ => _ end) in *. clearbody dg.
+  set (ol := operand_left (s_operand s)) in *. clearbody ol.
   destruct (is_relative_op (s_operand s)).
   - destruct (v_int _ <=? k).
     + destruct (_ && _); [discriminate|]. apply bind_ok in H as [nn [_ H]]. inversion H; subst. apply rel_fix_with_add.
     + destruct (_ && _); [discriminate|]. apply bind_ok in H as [nn [_ H]]. inversion H; subst. apply rel_fix_with_add.
-  - set (ov := operand_value (s_operand s)) in *.
-    assert (Hov : ov = VPyNone \/ exists s1, rel_fix s s1 /\
-              (if cp_needs (s_pkg s)
-               then (do target <- (match operand_left (s_operand s) with
-                      | Some (LVal (VExpr l op r _ true)) =>
-                          do v <- calc_offset ss l op r;
-                          Ok (if v_negative v then (- Z.of_N (v_int v))%Z else Z.of_N (v_int v))
-                      | _ => do a <- addr_of ss (v_int (cp_add (s_pkg s1))); Ok (Z.of_N a)
-                      end);
-                     do start <- addr_of ss k;
-                     let jump := (((target - Z.of_N start - Z.of_N (cp_size (s_pkg s))) + 32768) mod 65536 - 32768)%Z in
-                     do n <- as_translation_error (num_of_Z jump (Some (s_hint s)) MNone);
-                     Ok (with_add s1 (VNum n)))
-               else Ok s1) = Ok s').
-    { destruct ov as [|nu|nm mm|idx|l op r mm ad|l r mm|st|hx|]; try (right; apply bind_ok in H as [s1 [H1 H]]);
-        try (inversion H1; subst s1; exists s; split; [apply rel_fix_refl | exact H]).
-      - destruct (nth_stmt ss idx) as [tt|]; [|discriminate]. destruct (cp_addr (s_pkg tt)); try discriminate;
-          apply bind_ok in H1 as [a' [_ H1]]; inversion H1; subst s1; eexists; (split; [apply rel_fix_with_add | exact H]).
-      - destruct ad.
-        + apply bind_ok in H1 as [a0 [_ H1]]. apply bind_ok in H1 as [a' [_ H1]]. inversion H1; subst s1.
-          eexists; (split; [apply rel_fix_with_add | exact H]).
-        + inversion H1; subst s1. exists s. split; [apply rel_fix_refl | exact H].
-      - left. reflexivity. }
-    destruct Hov as [Hn | [s1 [R1 H2]]]; [rewrite Hn in H; discriminate|].
-    destruct (cp_needs (s_pkg s)).
-    + apply bind_ok in H2 as [tg [_ H2]]. apply bind_ok in H2 as [stt [_ H2]]. apply bind_ok in H2 as [nn [_ H2]].
-      inversion H2; subst. eapply rel_fix_trans; [exact R1 | apply rel_fix_with_add].
-    + inversion H2; subst. exact R1.
+  - inv_all;
+      repeat first [apply rel_fix_refl | apply rel_fix_with_add | (eapply rel_fix_trans; [|apply rel_fix_with_add])].
 Qed.
 
 Lemma fix_all_rel all : forall ss k ss', fix_all all ss k = Ok ss' -> Forall2 rel_fix ss ss'.
